@@ -320,6 +320,11 @@ impl Area for P {
                     // the client's end-of-stream (FIN seen by a read, or HUP) closed the session with client bytes read but never written to the backend
                     run.oracle.push(("pipe-close-loses-client-bytes".into(), format!("{} byte(s) read from the client were dropped at close", read_front.len() - got.len())));
                 }
+                let backend_eof = r.closed_by.starts_with("brd ") || r.closed_by == "bhup" || r.closed_by.starts_with("bwr");
+                if r.dead && backend_eof && sc.written.len() < read_back.len() {
+                    // the backend's end-of-stream (or a drained request) closed the session with backend bytes read but not written to the client
+                    run.oracle.push(("pipe-backend-eof-loses-bytes".into(), format!("{} byte(s) read from the backend were dropped at close ({})", read_back.len() - sc.written.len(), r.closed_by)));
+                }
                 if !got.is_empty() || !sc.written.is_empty() || r.dead {
                     run.nontrivial = true;
                 }
